@@ -43,6 +43,22 @@ def idx (d : DType) : Nat := all.idxOf d
 /-- numpy's promotion (`numpy.result_type`) from the regenerated table -/
 def promote (a b : DType) : DType := ((Generated.promotion.getD (idx a) []).getD (idx b) a)
 
+/-- data type of `polynomial_from_attributes` when none is requested: numpy's promotion of the dtypes of *all* the
+coefficients passed in. It is taken before the cleaning step (as repaired, D31), so it does not depend on whether an
+all-zero coefficient is dropped. `cols`: (dtype, is the coefficient all zero?) per coefficient. -/
+def inferDtype (cols : List (DType × Bool)) : Option DType :=
+  match cols with
+  | [] => none
+  | c :: cs => some (cs.foldl (fun d x => promote d x.1) c.1)
+
+/-- the shipped order: inferred *after* `remove_redundant_coefficients`, i.e. from the surviving coefficients only
+(all of them when `retain_coefficients` is on; the first one when nothing survives) -/
+def inferDtypeOld (rc : Bool) (cols : List (DType × Bool)) : Option DType :=
+  if rc then inferDtype cols
+  else
+    let kept := cols.filter fun c => !c.2
+    if kept.isEmpty then inferDtype (cols.take 1) else inferDtype kept
+
 /-- the product term written by `multiply` (as repaired): both factors are cast to the promoted dtype; the compiled
 kernel is used only for guarded dtypes, else numpy arithmetic; either way the cell holds a value of that dtype -/
 def multiplyCell (guard : List DType) (a b : DType) : DType × Cell :=
